@@ -216,7 +216,7 @@ theorem ridder_evals_in_bracket (f : Rat → Option Rat) (sq rnd : Rat → Rat) 
           ⟨le_refl _, min_le_max, min_le_max, le_refl _⟩ (fun h0 => absurd h0 (by omega)) x h
   · simp only [List.mem_cons, List.not_mem_nil, or_false] at hx; exact ends x hx
 
-/-- the instance the other theorems are about: exact arithmetic, 200 iterations -/
+/-- the instance the other theorems are about: exact arithmetic, 2200 iterations -/
 theorem findRoot_evals_in_bracket (f : Rat → Option Rat) (sq : Rat → Rat) (xl xr acc : Rat) :
     ∀ x ∈ (findRoot f sq xl xr acc).evals, min xl xr ≤ x ∧ x ≤ max xl xr :=
   ridder_evals_in_bracket f sq id xl xr acc maxIterations (by decide)
@@ -262,11 +262,11 @@ theorem findRoot_accuracy (f : Rat → Option Rat) (sq : Rat → Rat) (hsq : SqO
     · rw [h] at hret; cases hret; exact ⟨h1, h2, h3⟩
     · rw [h] at hret; cases hret
 
-/-- **findRoot_maxiter_bound**: if the 200 iterations are used up, the returned iterate is an end of
-    an interval with a sign change not wider than `|xr − xl| / 2^200`. -/
+/-- **findRoot_maxiter_bound**: if the 2200 iterations are used up, the returned iterate is an end of
+    an interval with a sign change not wider than `|xr − xl| / 2^2200`. -/
 theorem findRoot_maxiter_bound (f : Rat → Option Rat) (sq : Rat → Rat) (hsq : SqOK sq) (xl xr acc r : Rat)
     (hret : (findRoot f sq xl xr acc).out = .maxIter r) :
-    Witness f (min xl xr) (max xl xr) (|xr - xl| / 2 ^ 200) false r := by
+    Witness f (min xl xr) (max xl xr) (|xr - xl| / 2 ^ 2200) false r := by
   rcases findRoot_cases f sq hsq xl xr acc with ⟨_, _, ho⟩ | ⟨R, hp, he⟩
   · rcases ho with h | h | ⟨h, _⟩ | ⟨h, _⟩ <;> rw [h] at hret <;> cases hret
   · rw [he] at hret
@@ -365,7 +365,7 @@ theorem findRoot_linear_exact (sq : Rat → Rat) (hsq : ∀ t : Rat, sq (t * t) 
       field_simp
       push_cast
       ring
-  have h50 : maxIterations = 199 + 1 := rfl
+  have h50 : maxIterations = 2199 + 1 := rfl
   rw [h50, loop]
   unfold step
   simp only []
@@ -414,7 +414,7 @@ theorem findRoot_accuracy_driver (f : Rat → Option Rat) (xl xr acc r : Rat)
 
 theorem findRoot_maxiter_bound_driver (f : Rat → Option Rat) (xl xr acc r : Rat)
     (hret : (findRoot f sqrtRat xl xr acc).out = .maxIter r) :
-    Witness f (min xl xr) (max xl xr) (|xr - xl| / 2 ^ 200) false r :=
+    Witness f (min xl xr) (max xl xr) (|xr - xl| / 2 ^ 2200) false r :=
   findRoot_maxiter_bound f sqrtRat sqrtRat_SqOK xl xr acc r hret
 
 theorem findRoot_sign_change_returns_driver (f : Rat → Option Rat) (xl xr acc fl fr : Rat)
@@ -463,6 +463,11 @@ example (sq : Rat → Rat) : (findRoot (fun x => some (x - 1)) sq 1 2 (1 / 10)).
   have h := (findRoot_end_zero (fun x => some (x - 1)) sq 1 2 (1 / 10) 0 1 (by norm_num) (by norm_num)).1 rfl
   rw [h.1]; norm_num
 
+
+/-- **midpoint_overflow_branch_noop** (commit 8bf0489): the alternative midpoint `x1/2 + x2/2`, which the
+    code takes when the double sum `x1 + x2` overflows, is the same number as `(x1 + x2)/2`: the branch is
+    value-neutral over the rationals and every theorem about the midpoint holds for either form. -/
+theorem midpoint_overflow_branch_noop (x1 x2 : Rat) : x1 / 2 + x2 / 2 = (x1 + x2) / 2 := by ring
 
 /-! ## The decision table of the end-value checks -/
 
@@ -590,7 +595,7 @@ theorem findRoot_nan_beats_zero (f : Rat → Option Rat) (sq rnd : Rat → Rat) 
 
 /-- non-vacuity: zero at the left end, NaN at the right end -/
 example (sq rnd : Rat → Rat) :
-    (findRootR (fun x => if x = 2 then none else some x) sq rnd 0 2 (1 / 10) 200).out = .errNaN :=
-  findRoot_nan_beats_zero _ sq rnd 0 2 (1 / 10) 200 (Or.inr (by norm_num))
+    (findRootR (fun x => if x = 2 then none else some x) sq rnd 0 2 (1 / 10) 2200).out = .errNaN :=
+  findRoot_nan_beats_zero _ sq rnd 0 2 (1 / 10) 2200 (Or.inr (by norm_num))
 
 end Lp.C02
